@@ -7,6 +7,8 @@ use crate::op::*;
 
 #[derive(Clone, Debug)]
 pub struct SObj {
+    pub kind: Kind,
+    /// no slots, `NEEDS_TRACE = false`
     pub leaf: bool,
     pub slots: Vec<SSlot>,
     pub dropped: u32,
@@ -579,9 +581,14 @@ impl Shadow {
                 self.cb = None;
                 self.temps.clear();
             }
-            Op::Alloc { leaf, slots } => {
+            Op::Alloc { kind, slots } => {
                 let id = self.objs.len() as u32;
-                self.objs.push(SObj { leaf: *leaf, slots: if *leaf { vec![] } else { slots.clone() }, dropped: 0, freed: 0 });
+                let slots = match kind {
+                    Kind::Leaf => vec![],
+                    Kind::OnceCell => vec![None],
+                    _ => slots.clone(),
+                };
+                self.objs.push(SObj { kind: *kind, leaf: *kind == Kind::Leaf, slots, dropped: 0, freed: 0 });
                 self.push(SP::S(id));
                 self.allocs_since_wake += 1;
                 self.mutated_since_wake = true;
@@ -682,13 +689,31 @@ impl Shadow {
             Op::Barrier(_) => {
                 self.mutated_since_wake = true;
             }
-            Op::Store { p, i, v: val, .. } => {
+            Op::Store { path, p, i, v: val } => {
                 self.mutated_since_wake = true;
-                if obs.ret == "ok" {
-                    if let Some(o) = self.objs.get_mut(*p as usize) {
-                        if *i < o.slots.len() {
-                            o.slots[*i] = *val;
+                let occupied = match self.objs.get(*p as usize) {
+                    Some(o) if o.kind == Kind::OnceCell => o.slots.first().copied().flatten(),
+                    _ => None,
+                };
+                if let Some(cur) = occupied {
+                    // `set` / `get_or_init` on an occupied OnceLock: nothing is stored, the call
+                    // hands back what the cell holds
+                    if obs.ret != cur.to_string() {
+                        v("C06", format!("`{op}` on an occupied cell returned `{}`, the cell holds `{cur}`", obs.ret));
+                    }
+                    if obs.ret == "ok" {
+                        v("C01", format!("`{op}` replaced the content `{cur}` of a OnceLock"));
+                    }
+                    self.push(cur);
+                } else {
+                    if obs.ret == "ok" {
+                        if let Some(o) = self.objs.get_mut(*p as usize) {
+                            if *i < o.slots.len() {
+                                o.slots[*i] = *val;
+                            }
                         }
+                    } else if path.sanctioned() && !obs.ret.starts_with("panic") {
+                        v("C06", format!("sanctioned setter `{op}` did not store: {}", obs.ret));
                     }
                 }
             }
@@ -715,6 +740,7 @@ impl Shadow {
                     v("C04", format!("{} Gc blocks outstanding after arena drop", obs.live_blocks));
                 }
             }
+            Op::Marker => {}
         }
         if obs.steps.contains('Z') || obs.phase_after == CPhase::Sleeping || matches!(op, Op::DropArena) {
             self.resurrected.clear();
